@@ -25,6 +25,7 @@ func genAll() {
 	genSaveSrc()
 	genCursorSrc()
 	genMergeSrc()
+	genGoastImportsSrc()
 	genAccess()
 	genResolveSrc()
 	genResolverSrc()
